@@ -287,6 +287,7 @@ func c19(c *Ctx) {
 	r.Explain = "C19 (fixture generators describe what they stored): decides by symbolic evaluation of string expressions in the exported generators of package testutil (G1) that every entry path is the generating directory's own path, or that path + \"/\" + a freshly generated name, or — for WrapContent, whose wrapping directories have the empty path — a bare name; that child directories are generated under exactly such a path; and that packDirectory names each link by the last \"/\"-segment of the child's path; (G2) that every generated name passes the sibling-uniqueness test against the list it joins before it is used, is used for one child only, and comes from a word list without empty words or \"/\"; (G3) that each returned entry carries root and size of the very build call that stored it. Plus R9.7 (no never-assigned local read). Not decided: equality with a read-back of the DAG."
 	r.Rule("G1", "path shape: symbolic value of every store to DirEntry.Path, of every WithDirname argument and of every directory-path argument of a recursive generator call is \"\" (root/default), D (own path), D + \"/\" + N (child), or a bare non-empty name; packDirectory takes the link name after the last \"/\"")
 	r.Rule("G2", "uniqueness: every name N used in a child path was produced under a retry loop whose exit is guarded by !isDupe(children, N); a name is consumed outside any cycle that does not regenerate it; namegen's word data contains no \"/\" and is split with strings.Fields (no empty word)")
+	r.Rule("G4", "a children slice handed to a directory packer inside a loop is allocated in that iteration: the packers keep the slice as the returned entry's Children, so a scratch slice reset with s = s[:0] and reused makes earlier descriptions alias later ones")
 	r.Rule("G3", "pairing: Root and TSize of every DirEntry literal come from the same builder call; every link built for a child uses that child's TSize and Root")
 	r.Rule("R9.7", "no local declared without initialiser, never assigned, and read in a guard or operator")
 
@@ -435,6 +436,7 @@ func c19(c *Ctx) {
 
 	// ---- G3
 	c.checkEntryPairing()
+	c.checkNoChildrenReuse()
 
 	// ---- R9.7
 	dead := core.NeverAssignedLocals(tp, func(fd *ast.FuncDecl) bool { return true })
@@ -614,7 +616,7 @@ func (c *Ctx) checkEntryPairing() {
 			continue
 		}
 		// DirEntry composite literals: allocations (or local cells) whose Root and TSize fields are stored
-		type pair struct{ root, size ssa.Value }
+		type pair struct{ root, size, content ssa.Value }
 		lits := map[ssa.Value]*pair{}
 		var order []ssa.Value
 		for _, b := range fn.Blocks {
@@ -639,6 +641,8 @@ func (c *Ctx) checkEntryPairing() {
 					lits[base].root = st.Val
 				case "TSize":
 					lits[base].size = st.Val
+				case "Content":
+					lits[base].content = st.Val
 				}
 			}
 		}
@@ -659,6 +663,48 @@ func (c *Ctx) checkEntryPairing() {
 			}
 			sort.Strings(names)
 			r.Check(good, "G3", key, c.P.Pos(base.Pos()), "Root and TSize both come from "+strings.Join(names, "|"), "Root and TSize of the returned entry do not come from the same build call")
+			// Content: the bytes the file builder consumed — the buffer its reader tees into, or the slice its reader reads
+			if p.content != nil && !core.IsNilConst(p.content) {
+				for _, bc := range rc {
+					var rdr ssa.Value
+					for _, a := range bc.Call.Args {
+						if strings.HasSuffix(types.TypeString(a.Type(), nil), "io.Reader") {
+							rdr = a
+						}
+					}
+					if rdr == nil {
+						continue
+					}
+					for i := 0; i < 4; i++ {
+						switch x := rdr.(type) {
+						case *ssa.MakeInterface:
+							rdr = x.X
+						case *ssa.ChangeInterface:
+							rdr = x.X
+						}
+					}
+					rcall, ok := rdr.(*ssa.Call)
+					if !ok {
+						continue
+					}
+					ckey := fmt.Sprintf("%s/DirEntry-literal#%d/content", core.FuncName(fn), k)
+					switch {
+					case core.IsCallTo(rcall, "io", "TeeReader") && len(rcall.Call.Args) == 2:
+						sink := rcall.Call.Args[1]
+						if mi, ok := sink.(*ssa.MakeInterface); ok {
+							sink = mi.X
+						}
+						cc, isCall := p.content.(*ssa.Call)
+						okc := isCall && cc.Call.StaticCallee() != nil && cc.Call.StaticCallee().Name() == "Bytes" && len(cc.Call.Args) == 1 && cc.Call.Args[0] == sink
+						n++
+						r.Check(okc, "G3", ckey, c.P.Pos(base.Pos()), "Content is the buffer the builder's reader tees into", "Content is not the buffer that received the bytes handed to the file builder: the description can differ from what was stored")
+					case core.IsCallTo(rcall, "bytes", "NewReader") && len(rcall.Call.Args) == 1:
+						n++
+						okc := resolveLocal(p.content) == resolveLocal(rcall.Call.Args[0])
+						r.Check(okc, "G3", ckey, c.P.Pos(base.Pos()), "Content is the slice the builder's reader reads", "Content is a different slice from the one handed to the file builder: the description can differ from what was stored")
+					}
+				}
+			}
 		}
 		// links built for children: size and root of the same child value
 		for _, ci := range core.CallsIn(fn) {
@@ -850,4 +896,78 @@ func isDupePredicate(f *ssa.Function) bool {
 		return false
 	}
 	return isBasic(f.Signature.Params().At(1).Type(), types.String) && isBasic(f.Signature.Results().At(0).Type(), types.Bool)
+}
+
+// checkNoChildrenReuse implements G4.
+func (c *Ctx) checkNoChildrenReuse() {
+	r := c.R
+	n := 0
+	for _, fn := range c.G.Funcs() {
+		rel, ok := c.P.PkgOf(fn)
+		if !ok || rel != "testutil" || fn.Synthetic != "" {
+			continue
+		}
+		ord := 0
+		for _, ci := range core.CallsIn(fn) {
+			call, ok := ci.(*ssa.Call)
+			if !ok || call.Call.StaticCallee() == nil || !core.InCycle(call.Block()) {
+				continue
+			}
+			h := call.Call.StaticCallee()
+			if hrel, isRepo := c.P.PkgOf(h); !isRepo || hrel != "testutil" {
+				continue
+			}
+			// only callees that hand back an entry (and so may keep the slice as its Children), not predicates
+			returnsEntry := false
+			for i := 0; i < h.Signature.Results().Len(); i++ {
+				if nn, _ := structOf(h.Signature.Results().At(i).Type()); nn != nil && nn.Obj().Name() == "DirEntry" {
+					returnsEntry = true
+				}
+			}
+			if !returnsEntry {
+				continue
+			}
+			for _, a := range call.Call.Args {
+				sl, isSlice := a.Type().Underlying().(*types.Slice)
+				if !isSlice {
+					continue
+				}
+				if nn, _ := structOf(sl.Elem()); nn == nil || nn.Obj().Name() != "DirEntry" {
+					continue
+				}
+				n++
+				ord++
+				key := fmt.Sprintf("%s/children-slice-fresh#%d", core.FuncName(fn), ord)
+				// walk back through append chains and phis to the slice's origin
+				reused := ""
+				seen := map[ssa.Value]bool{}
+				var walk func(v ssa.Value, d int)
+				walk = func(v ssa.Value, d int) {
+					if v == nil || seen[v] || d > 12 || reused != "" {
+						return
+					}
+					seen[v] = true
+					switch x := v.(type) {
+					case *ssa.Phi:
+						for _, e := range x.Edges {
+							walk(e, d+1)
+						}
+					case *ssa.Call:
+						if b, isB := x.Call.Value.(*ssa.Builtin); isB && b.Name() == "append" && len(x.Call.Args) > 0 {
+							walk(x.Call.Args[0], d+1)
+						}
+					case *ssa.Slice:
+						// s[:0] (or any re-slice) of a slice that lives across iterations
+						if _, fromArr := x.X.(*ssa.Alloc); fromArr && core.InCycle(x.Block()) && sameCycle(x.Block(), call.Block()) {
+							return // a fresh array literal sliced in this iteration
+						}
+						reused = c.P.Pos(x.Pos())
+					}
+				}
+				walk(a, 0)
+				r.Check(reused == "", "G4", key, c.P.Pos(call.Pos()), "the children slice is built afresh in the iteration that hands it over", "the children slice is a re-slice (at "+reused+") of storage that survives the iteration: the packer keeps it as Children, so the entries described earlier are overwritten by later levels")
+			}
+		}
+	}
+	r.Floor("G4", n, 1)
 }
